@@ -217,6 +217,15 @@ void *malloc(size_t len)
             return 0;
         }
     }
+    else if (len > (size_t)-1 - sizeof(size_t) ||
+             len + sizeof(size_t) > (size_t)-1 - (size_t)__brkval)
+    {
+        /* No heap end configured: still refuse a request that would move
+         * the break across the top of the address space (it wrapped
+         * around to a low address and later chunks overlapped live ones). */
+        __allocation_counter--;
+        return 0;
+    }
     fp1 = (struct __freelist *)__brkval;
     __brkval += len + sizeof(size_t);
     fp1->sz = len;
